@@ -7,7 +7,9 @@ columns, dtypes, name; Grid / Catchment: cell values), after the call (also when
 raises) the snapshots are compared. `self` and parameters documented as outputs are
 exempt. In repeat mode a top-level call of a whitelisted function is executed a
 second time on deep copies of the original arguments under the same global RNG
-state, and the two results are compared canonically."""
+state, and the two results are compared canonically; for plain functions the
+second result is then edited in place (as a caller may) and a third call must still
+return the first answer, which exposes results cached or shared between calls."""
 import copy
 import functools
 import inspect
@@ -133,6 +135,41 @@ def canon(r, depth=0):
     return ("obj", type(r).__name__)
 
 
+def scramble(r, depth=0):
+    """what a caller may do with a result it owns: edit it in place. Returns the number
+    of array leaves that were edited."""
+    try:
+        import pandas as pd
+    except Exception:        # pragma: no cover
+        pd = None
+    n = 0
+    if isinstance(r, np.ndarray):
+        if r.size and r.flags.writeable and r.dtype.kind in "fiu":
+            with np.errstate(all="ignore"):
+                if r.dtype.kind == "f":
+                    r *= -3.0
+                    r += 7.0
+                else:
+                    r += 113
+            return 1
+        return 0
+    if pd is not None and isinstance(r, (pd.Series, pd.DataFrame)):
+        try:
+            v = r.values
+            if isinstance(v, np.ndarray) and v.flags.writeable:
+                return scramble(v, depth + 1)
+        except Exception:
+            pass
+        return 0
+    if isinstance(r, (list, tuple)) and depth < 3:
+        for v in r:
+            n += scramble(v, depth + 1)
+    elif isinstance(r, dict) and depth < 3:
+        for v in r.values():
+            n += scramble(v, depth + 1)
+    return n
+
+
 # -------------------------------------------------------------------- wrapper ----
 def make_wrapper(fn, qual, is_method):
     try:
@@ -168,11 +205,13 @@ def make_wrapper(fn, qual, is_method):
                       "cells_inside_polygon", "upstream", "downstream", "clip",
                       "clone", "to_dict", "same_geometry", "intersect", "isin",
                       "extent", "params_logprior"))
-        saved = None
+        saved = saved3 = None
         if do_repeat:
             try:
                 saved = (copy.deepcopy(args), copy.deepcopy(kwargs),
                          np.random.get_state())
+                saved3 = (copy.deepcopy(args), copy.deepcopy(kwargs)) \
+                    if not is_method else None
             except Exception:
                 saved = None
         STATE.local.depth = depth + 1
@@ -215,6 +254,20 @@ def make_wrapper(fn, qual, is_method):
                         STATE.violations.append(v)
                         if STATE.on_violation:
                             STATE.on_violation(v)
+                    elif saved3 is not None:
+                        # the caller edits the result it was given (in place), then
+                        # asks again: a result cached or shared between calls shows
+                        if scramble(res2):
+                            np.random.set_state(rs)
+                            res3 = fn(*saved3[0], **saved3[1])
+                            STATE.repeats[qual + "#after-edit"] += 1
+                            if canon(res3) != c1:
+                                v = {"function": qual, "param": None,
+                                     "kind": "result-shared-between-calls",
+                                     "first": repr(res)[:300], "third": repr(res3)[:300]}
+                                STATE.violations.append(v)
+                                if STATE.on_violation:
+                                    STATE.on_violation(v)
                 except Exception as e:
                     v = {"function": qual, "param": None,
                          "kind": "second-call-raises", "exc": repr(e)[:300]}
@@ -240,7 +293,11 @@ def install():
         for name, obj in list(vars(mod).items()):
             if name.startswith("_"):
                 continue
-            if inspect.isfunction(obj) and obj.__module__ == mn:
+            # (decorated functions - functools.lru_cache and the like - are callables
+            # with __wrapped__, not functions)
+            if (inspect.isfunction(obj) or (callable(obj) and not inspect.isclass(obj)
+                                            and hasattr(obj, "__wrapped__"))) \
+                    and getattr(obj, "__module__", None) == mn:
                 qual = f"{mn}.{name}"
                 if qual in SKIP or getattr(obj, "__hyverif_wrapped__", False):
                     continue
